@@ -54,9 +54,6 @@ var north = s2.Point{Vector: r3.Vector{X: 0, Y: 0, Z: 1}}
 var south = s2.Point{Vector: r3.Vector{X: 0, Y: 0, Z: -1}}
 
 func run(c *vkit.Collector, rng *vkit.Rng, budget int) {
-	// vkit.NewRng(seed) starts seed n+1 exactly one draw after seed n (same splitmix sequence), so
-	// consecutive seeds produce nearly identical runs; re-seed from a mixed value.
-	rng = vkit.NewRng(rng.U64() ^ 0xC10C10C10)
 	g := &gen{rng: rng, c: c}
 	runCorpus(c, g)
 	runBounderTraces(c, g, budget)
@@ -138,6 +135,16 @@ func runCorpus(c *vkit.Collector, g *gen) {
 	pl2 := s2.Polyline{raw(hx("-0x1.b94698402c4c9p-03"), 0, hx("-0x1.f3f9466b218f9p-01")), raw(hx("0x1.b946983dbefa9p-03"), 0, hx("0x1.f3f9466b43d59p-01"))}
 	if onEdgeExact(pl2[0], pl2[1], north) {
 		checkContained(c, "Polyline", boundsOf{pl2.RectBound(), pl2.CapBound(), nil}, north, map[string]interface{}{"class": "corpus", "polyline": chainJSON(pl2)})
+	}
+	// ConvexHull of an input with an exactly antipodal pair must be the full loop
+	hq := s2.NewConvexHullQuery()
+	hin := []s2.Point{north, south, raw(1, 0, 0)}
+	for _, p := range hin {
+		hq.AddPoint(p)
+	}
+	if h := hq.ConvexHull(); !h.IsFull() && h.Validate() != nil {
+		violate(c, "ConvexHull.antipodal-input", "input contains an exactly antipodal pair but the hull is not the full loop and is invalid: "+h.Validate().Error(),
+			map[string]interface{}{"input": chainJSON(hin), "hull": chainJSON(h.Vertices()), "cap_height": fmt.Sprint(hq.CapBound().Height())})
 	}
 	// Cap.RectBound: cap of radius just under pi/2 centred on the equator
 	cp := s2.VerifC10CapFromChord(raw(0, 1, 0), 1.999999999771825)
